@@ -226,6 +226,27 @@ def rule_xport(m):
                         if why is None and len(a) >= 4 and a[3] == ('bool', True):
                             why = 'the insertion is forced (an undirected edge would be inserted twice)'
                         init = _local_init(f, tt, sub)
+                        # the copy loop runs for every non-empty vertex set: the only early exit tolerated is on an
+                        # empty set (a single vertex can carry a self-loop)
+                        if why is None:
+                            anchor = encl[0].get('rangestmt', -1)
+                            pos = f.cfg_pos(anchor) if anchor >= 0 else None
+                            for dep in (f.region_of_block(pos[0]) if pos else ()):
+                                if f.block_dominates(pos[0], dep[0]):
+                                    continue
+                                t = tt.t(f.branch_atom(dep[0]))
+                                x = t
+                                neg = False
+                                while x[0] == 'un' and x[1] == '!':
+                                    x = x[3]
+                                    neg = not neg
+                                empty_test = (x[0] == 'mcall' and x[1].endswith('::empty') and x[2] == S) or \
+                                    (x[0] == 'bin' and x[1] == '==' and x[2][0] == 'mcall' and x[2][1].endswith('::size') and
+                                     x[2][2] == S and strip_cast(x[3]) == ('int', 0))
+                                if not (empty_test and ((dep[1] == 0) == neg)):
+                                    why = 'the copy loop over the vertex set is skipped when `%s` is %s: edges among the ' \
+                                          'selected vertices (e.g. the self-loop of a single selected vertex) are lost' % (
+                                              f.expr_text(f.branch_atom(dep[0])), dep[1] == 0)
                         if why is None and not remap:
                             if a[:2] != [i, j]:
                                 why = 'the endpoints inserted are not (i, j)'
